@@ -88,6 +88,9 @@ def _vm_pairs(tok):
 def _vm_goal(case, out):
     toks = [t for t in case.split(" ") if t and not t.startswith("#")]
     k = toks[0]
+    ext = "extract"
+    if k in ("XU", "EU"):   # unprivileged owner: the model with the permission check
+        k, ext = k[0], "extract_p false"
     if k == "T" and out.startswith("ENT "):
         t, _ = _vm_tree(toks, 3)
         ents = []
@@ -98,7 +101,7 @@ def _vm_goal(case, out):
         return "tar_entries %s %s %s\n  = [%s]" % (_vm_path(toks[2]), _vm_bool(toks[1]), t, ";\n     ".join(ents))
     if k == "X":
         t, _ = _vm_tree(toks, 4)
-        call = "extract %s %s %s (tar_entries %s false %s)" % (_vm_path(toks[3]), toks[1], _vm_bool(toks[2]), _vm_path(toks[3]), t)
+        call = ext + " %s %s %s (tar_entries %s false %s)" % (_vm_path(toks[3]), toks[1], _vm_bool(toks[2]), _vm_path(toks[3]), t)
         if out.startswith("UNJUDGED"):
             return "vm_cls (%s) = 3%%nat" % call
         hyp, _, rest = out.partition(" ")
@@ -122,7 +125,7 @@ def _vm_goal(case, out):
             kind = {"f": "(EReg %s)" % _vm_str(payload), "d": "EDir", "l": "(ELnk %s)" % _vm_str(payload)}[typ]
             ents.append("mkEntry %s %s %s 0" % (_vm_path(nm), kind, mode))
         el = "[" + ";\n     ".join(ents) + "]" if ents else "(@nil entry)"
-        call = "extract %s %s %s\n    %s" % (_vm_path(toks[3]), toks[1], _vm_bool(toks[2]), el)
+        call = ext + " %s %s %s\n    %s" % (_vm_path(toks[3]), toks[1], _vm_bool(toks[2]), el)
         if out.startswith("UNJUDGED"):
             return "vm_cls (%s) = 3%%nat" % call
         if out.startswith("OK "):
@@ -160,6 +163,7 @@ def _c12_vm_sample(d, tier, coq, build):
 
     def eligible(c):
         k = c.split(" ", 1)[0]
+        k = {"XU": "X", "EU": "E"}.get(k, k)
         return k if k in quota and len(c) < 9000 else None
     with open(os.path.join(d, "cases.txt")) as f:
         for l in f:
@@ -201,7 +205,7 @@ def _c12_vm_sample(d, tier, coq, build):
 
 CONFIG = {
     "properties_file": "Properties/C12.v",
-    "proof_files": ["Base/Prelude.v", "Proofs/TarRoundTrip.v", "Proofs/TarWalkOrder.v", "Proofs/TarListingOrder.v", "Proofs/TarModeSweep.v", "Proofs/TarRootMode.v"],
+    "proof_files": ["Base/Prelude.v", "Proofs/TarRoundTrip.v", "Proofs/TarWalkOrder.v", "Proofs/TarListingOrder.v", "Proofs/TarModeSweep.v", "Proofs/TarRootMode.v", "Proofs/TarUnprivileged.v"],
     "model_files": ["Generated/GC12.v", "Model/TarRoundTrip.v", "Model/FileAnnotations.v"],
     "extract": "XC12.v",
     "ml_main": "c12_main.ml",
